@@ -8,7 +8,7 @@ from . import typespace as TS
 
 META = {
     "rule": "for every type of the C06 space: (a) every out-of-domain value of the type's invalid alphabet must make encode raise "
-    "DataError; (b) for every valid encoding of at most 64 bytes, every proper prefix, the empty buffer and every substitution "
+    "DataError (arrays also get sized non-sequence containers: dict, dict view, set, frozenset, deque with a bad element); (b) for every valid encoding of at most 64 bytes, every proper prefix, the empty buffer and every substitution "
     "of each of the first 4 bytes by {0x00,0x01,0x7F,0x80,0xFF,b^1} is decoded by library and reference: where the reference "
     "yields a value the library must yield the same value, where it fails the library must raise DataError "
     "(BufferEmptyError only if the reference ran out exactly at a value start); a counting stream enforces a read budget. "
